@@ -1,7 +1,8 @@
 #!/venv/bin/python
 """Development tool: second stage of tools/mutation_campaign.py. A seeded change counts only if the unedited test suite still
 passes with it, so survivors of the checks are run against the *related* test files (on a scratch copy of the repository);
-what survives both is listed for reading.   usage: tools/mutation_triage.py survivors.json out.json [--jobs N]"""
+what survives both is listed for reading.   usage: tools/mutation_triage.py survivors.json out.json [--jobs N] [--full]
+(--full: the whole unedited suite instead of the related files; a failure is re-run once to discount timing flakes)"""
 import json, os, shutil, subprocess, sys, tempfile
 from concurrent.futures import ThreadPoolExecutor
 sys.path.insert(0, os.path.dirname(os.path.abspath(__file__)))
@@ -37,7 +38,7 @@ def main():
     print(len(todo), "survivors to run against related tests", flush=True)
     def one(job):
         rel, desc, new = job
-        tests = TESTS.get(rel)
+        tests = ["tests"] if "--full" in sys.argv else TESTS.get(rel)
         if not tests:
             return {"file": rel, "mutant": desc, "tests": "none-related"}
         d = tempfile.mkdtemp(prefix="tri-")
@@ -48,11 +49,15 @@ def main():
                 if os.path.exists(f"/repo/{x}"):
                     shutil.copy(f"/repo/{x}", f"{d}/{x}")
             open(f"{d}/src/watchdog/{rel}", "w").write(new)
-            try:
-                r = subprocess.run(["/venv/bin/python", "-m", "pytest", "-q", "-x", "-p", "no:cacheprovider", "--timeout=120", "--no-cov", *tests], cwd=d, stdout=subprocess.DEVNULL, stderr=subprocess.DEVNULL, timeout=600)
-                rc = r.returncode
-            except subprocess.TimeoutExpired:
-                rc = 99
+            rc = 1
+            for _attempt in range(2 if "--full" in sys.argv else 1):
+                try:
+                    r = subprocess.run(["/venv/bin/python", "-m", "pytest", "-q", "-x", "-p", "no:cacheprovider", "--timeout=120", "--no-cov", *tests], cwd=d, stdout=subprocess.DEVNULL, stderr=subprocess.DEVNULL, timeout=900)
+                    rc = r.returncode
+                except subprocess.TimeoutExpired:
+                    rc = 99
+                if rc == 0:
+                    break
             return {"file": rel, "mutant": desc, "tests": "pass" if rc == 0 else f"killed(rc={rc})"}
         finally:
             shutil.rmtree(d, ignore_errors=True)
